@@ -258,7 +258,12 @@ impl AsCborValue for Header {
                 ));
             }
         }
-        let mut seen = BTreeSet::new();
+        // Start from the labels already emitted above, so that an entry in `rest` cannot repeat the
+        // label of a populated field.
+        let mut seen = map
+            .iter()
+            .map(|(l, _v)| Label::from_cbor_value(l.clone()))
+            .collect::<Result<BTreeSet<_>, _>>()?;
         for (label, value) in self.rest.into_iter() {
             if seen.contains(&label) {
                 return Err(CoseError::DuplicateMapKey);
